@@ -315,3 +315,191 @@ Example owner_table :
   owner_of 4 false Nlocal_bits = None /\ owner_of 4 true Nlocal_bits = Some 2%N /\
   owner_of 2 true Nstop_signature = Some 5%N /\ owner_of 2 true Ndata_i18n_subcategory = None.
 Proof. repeat split; vm_compute; reflexivity. Qed.
+
+(* ------------------------------------------------------------------------ *)
+(* metadata-only decoding                                                    *)
+(* ------------------------------------------------------------------------ *)
+Lemma definitions_no_data c : In c definitions -> s_index c <> 4%N -> existsb is_data (s_params c) = false.
+Proof.
+  unfold definitions. cbn [In]. intros H He.
+  repeat (destruct H as [<-|H]; [first [reflexivity | exfalso; apply He; reflexivity]|]). contradiction.
+Qed.
+
+Lemma definitions_index4 c : In c definitions -> s_index c = 4%N -> c = section4.
+Proof.
+  unfold definitions. cbn [In]. intros H He.
+  repeat (destruct H as [<-|H]; [try discriminate; try reflexivity|]). contradiction.
+Qed.
+
+Lemma get_configuration_4 props : get_configuration definitions props 4 = Ok section4.
+Proof.
+  destruct (get_configuration definitions props 4) as [c|e] eqn:E.
+  - destruct (get_configuration_in _ _ _ _ E) as [Hin Hidx]. f_equal. apply definitions_index4; assumption.
+  - exfalso. unfold get_configuration in E.
+    change (negb (existsb (fun c => (s_index c =? 4)%N) definitions)) with false in E. cbv iota in E.
+    change (config_for definitions 4 0) with (Some section4) in E. cbv iota in E.
+    destruct (config_for definitions 4 (section_edition props)); discriminate.
+Qed.
+
+Lemma configure_info_same props i ign : i <> 4%N ->
+  configure_section definitions props i true ign = configure_section definitions props i false ign.
+Proof.
+  intros Hi. unfold configure_section. destruct (get_configuration definitions props i) as [c|e] eqn:E; [|reflexivity].
+  cbn [bind]. destruct (get_configuration_in _ _ _ _ E) as [Hin Hidx].
+  assert (Hc : transform true ign c = transform false ign c).
+  { unfold transform, info_configuration. rewrite (definitions_no_data c Hin) by congruence. reflexivity. }
+  rewrite Hc. reflexivity.
+Qed.
+
+Definition full4 : sconfig := section4.
+Definition info4 : sconfig := mkS 4 None true false true
+  [mkP Nsection_length 24 TUint None false; mkP Nreserved_bits 8 TBin None false].
+
+Lemma transform_full4 ign : transform false ign section4 = section4.
+Proof. destruct ign; reflexivity. Qed.
+Lemma transform_info4 ign : transform true ign section4 = info4.
+Proof. destruct ign; reflexivity. Qed.
+
+Lemma configure_4 props info ign :
+  configure_section definitions props 4 info ign = Ok (Some (transform info ign section4)).
+Proof.
+  unfold configure_section. rewrite get_configuration_4. cbn [bind].
+  destruct info; [rewrite transform_info4|rewrite transform_full4]; reflexivity.
+Qed.
+
+Section InfoProofs.
+Variable decode_data : list (pname * pvalue) -> reader -> result (bits * reader).
+Hypothesis decode_data_prefix : forall p r b r', decode_data p r = Ok (b, r') -> r = b ++ r'.
+Hypothesis decode_data_suffix : forall p r b r' s,
+  decode_data p r = Ok (b, r') -> decode_data p (r ++ s) = Ok (b, r' ++ s).
+
+(* the section loop, stopped at the end of a list of indices (proof device) *)
+Fixpoint run (info ign : bool) (idxs : list N) (props : list (pname * pvalue)) (secs : list section)
+    (r : reader) : result (bool * list section * list (pname * pvalue) * reader) :=
+  match idxs with
+  | [] => Ok (false, secs, props, r)
+  | i :: idxs' =>
+      let* oc := configure_section definitions props i info ign in
+      match oc with
+      | None => run info ign idxs' props secs r
+      | Some c =>
+          let* (sec, props1, r1) := decode_section decode_data c props r in
+          if s_end c then Ok (true, secs ++ [sec], props1, r1)
+          else run info ign idxs' props1 (secs ++ [sec]) r1
+      end
+  end.
+
+Lemma decode_sections_split info ign l1 l2 : forall props secs r,
+  decode_sections decode_data definitions info ign (l1 ++ l2) props secs r =
+  let* (ended, secs1, props1, r1) := run info ign l1 props secs r in
+  if (ended : bool) then Ok (secs1, props1, r1)
+  else decode_sections decode_data definitions info ign l2 props1 secs1 r1.
+Proof.
+  induction l1 as [|i l1 IH]; intros props secs r; [reflexivity|].
+  cbn [app decode_sections run].
+  destruct (configure_section definitions props i info ign) as [[c|]|e]; cbn [bind]; [|apply IH|reflexivity].
+  destruct (decode_section decode_data c props r) as [[[sec props1] r1]|e]; cbn [bind]; [|reflexivity].
+  destruct (s_end c); [reflexivity|apply IH].
+Qed.
+
+Lemma run_info_same ign l : Forall (fun i => i <> 4%N) l -> forall props secs r,
+  run true ign l props secs r = run false ign l props secs r.
+Proof.
+  induction 1 as [|i l Hi Hl IH]; intros props secs r; [reflexivity|].
+  cbn [run]. rewrite (configure_info_same props i ign Hi).
+  destruct (configure_section definitions props i false ign) as [[c|]|e]; cbn [bind]; [|apply IH|reflexivity].
+  destruct (decode_section decode_data c props r) as [[[sec props1] r1]|e]; cbn [bind]; [|reflexivity].
+  destruct (s_end c); [reflexivity|apply IH].
+Qed.
+
+Lemma decode_sections_indices info ign idxs : forall props secs r secs' props' r',
+  decode_sections decode_data definitions info ign idxs props secs r = Ok (secs', props', r') ->
+  exists new, secs' = secs ++ new /\ Forall (fun s => In (sec_index s) idxs) new.
+Proof.
+  induction idxs as [|i idxs IH]; intros props secs r secs' props' r'; cbn [decode_sections]; [discriminate|].
+  intros H. apply bind_ok in H as (oc & Hc & H). destruct oc as [c|].
+  - apply bind_ok in H as ([[sec props1] r1] & Hs & H).
+    assert (Hi : sec_index sec = i).
+    { destruct (decode_section_ok decode_data decode_data_prefix decode_data_suffix _ _ _ _ _ _ Hs)
+        as (e1 & _ & _ & Hidx & _). rewrite Hidx.
+      unfold configure_section in Hc. apply bind_ok in Hc as (c0 & Hg & Hc).
+      destruct (existsb bytes_width_bad _); [discriminate|]. apply bind_ok in Hc as (b & _ & Hc).
+      destruct b; [|discriminate]. injection Hc as <-. rewrite transform_index.
+      apply (get_configuration_in _ _ _ _ Hg). }
+    destruct (s_end c).
+    + injection H as <- <- <-. exists [sec]. split; [reflexivity|]. constructor; [left; symmetry; exact Hi|constructor].
+    + apply IH in H as (new & -> & Hall). exists (sec :: new). rewrite <- app_assoc. split; [reflexivity|].
+      constructor; [left; symmetry; exact Hi|]. eapply Forall_impl; [|exact Hall]. intros s Hs'. right. exact Hs'.
+  - apply IH in H as (new & -> & Hall). exists new. split; [reflexivity|].
+    eapply Forall_impl; [|exact Hall]. intros s Hs'. right. exact Hs'.
+Qed.
+
+(* section 4: when the full decode succeeded, the metadata-only decode of the
+   same section succeeds, returns the first two values (length, reserved bits)
+   and stops at the same place — the declared end of the section *)
+Lemma section4_info_from_full props r sec props' r' :
+  decode_section decode_data section4 props r = Ok (sec, props', r') ->
+  exists seci, decode_section decode_data info4 props r = Ok (seci, props, r') /\
+    sec_index seci = 4%N /\ sec_values seci = firstn 2 (sec_values sec) /\ sec_nbits seci = sec_nbits sec.
+Proof.
+  unfold decode_section. intros H.
+  apply bind_ok in H as ([[env props1] r1] & Hp & H).
+  cbn [section4 s_params decode_params p_type p_nbits p_name p_prop p_expected] in Hp.
+  change (24 =? 0)%Z with false in Hp. change (8 =? 0)%Z with false in Hp. cbv iota in Hp.
+  apply bind_ok in Hp as ([v1 ra] & H1 & Hp). unfold add_prop, check_expected in Hp. cbn [p_prop p_expected bind] in Hp.
+  apply bind_ok in Hp as ([v2 rb] & H2 & Hp). cbn [p_prop p_expected bind] in Hp.
+  apply bind_ok in Hp as ([v3 rc] & H3 & Hp). cbn [p_prop p_expected bind] in Hp.
+  injection Hp as <- <- <-.
+  apply bind_ok in H3 as ([b rd] & Hd & H3). injection H3 as <- ->.
+  apply decode_data_prefix in Hd as Erb.
+  pose proof (read_typed_prefix _ _ _ _ _ H1) as (e1 & E1).
+  pose proof (read_typed_prefix _ _ _ _ _ H2) as (e2 & E2).
+  apply bind_ok in H as (r2 & Hskip & H). injection H as <- <- <-.
+  change (has_param Nsection_length (s_params section4)) with true in Hskip. cbv iota in Hskip.
+  apply bind_ok in Hskip as (sl & Hsl & Hskip).
+  (* the info side *)
+  cbn [info4 s_params decode_params p_type p_nbits p_name p_prop p_expected].
+  change (24 =? 0)%Z with false. change (8 =? 0)%Z with false. cbv iota.
+  rewrite H1. cbn [bind]. unfold add_prop, check_expected. cbn [p_prop p_expected bind].
+  rewrite H2. cbn [bind].
+  change (has_param Nsection_length [mkP Nsection_length 24 TUint None false; mkP Nreserved_bits 8 TBin None false]) with true.
+  cbv iota.
+  assert (Hsl' : declared_length [mkP Nsection_length 24 TUint None false; mkP Nreserved_bits 8 TBin None false]
+                   (([] ++ [(Nsection_length, v1)]) ++ [(Nreserved_bits, v2)]) = Ok sl).
+  { unfold declared_length in *. change (has_param Nsection_length (s_params section4)) with true in Hsl.
+    change (has_param Nsection_length [mkP Nsection_length 24 TUint None false; mkP Nreserved_bits 8 TBin None false]) with true.
+    cbv iota in Hsl |- *. cbn [app prop_get] in Hsl |- *. exact Hsl. }
+  rewrite Hsl'. cbn [bind].
+  assert (Lr : length r = (length e1 + length e2 + length b + length rc)%nat).
+  { rewrite E1, E2, Erb, !app_length. lia. }
+  assert (Lrb : length rb = (length b + length rc)%nat) by (rewrite Erb, app_length; reflexivity).
+  assert (Lra : length ra = (length e2 + length b + length rc)%nat) by (rewrite E2, Erb, !app_length; lia).
+  replace (Z.of_nat (length r - length rc)) with (Z.of_nat (length e1 + length e2 + length b)) in Hskip by lia.
+  replace (Z.of_nat (length r - length rb)) with (Z.of_nat (length e1 + length e2)) by lia.
+  destruct (Z.ltb_spec 0 (sl * 8 - Z.of_nat (length e1 + length e2 + length b))) as [Hpos|Hnp].
+  - apply bind_ok in Hskip as ([sk r3] & Hrb & Hskip). injection Hskip as ->.
+    unfold read_bin in Hrb. destruct (Z.ltb_spec (sl * 8 - Z.of_nat (length e1 + length e2 + length b)) 0); [lia|].
+    apply take_bits_ok in Hrb as [Erc Lsk].
+    destruct (Z.ltb_spec 0 (sl * 8 - Z.of_nat (length e1 + length e2))); [|lia].
+    unfold read_bin. destruct (Z.ltb_spec (sl * 8 - Z.of_nat (length e1 + length e2)) 0); [lia|].
+    assert (Et : take_bits (Z.to_nat (sl * 8 - Z.of_nat (length e1 + length e2))) rb = Ok (b ++ sk, r2)).
+    { rewrite Erb, Erc, app_assoc.
+      replace (Z.to_nat (sl * 8 - Z.of_nat (length e1 + length e2))) with (length (b ++ sk)) by (rewrite app_length; lia).
+      apply take_bits_app. }
+    rewrite Et. cbn [bind]. eexists. split; [reflexivity|]. cbn [sec_index sec_values sec_nbits].
+    split; [reflexivity|]. split; [reflexivity|reflexivity].
+  - destruct (Z.ltb_spec (sl * 8 - Z.of_nat (length e1 + length e2 + length b)) 0); [discriminate|].
+    injection Hskip as <-.
+    destruct (Z.ltb_spec 0 (sl * 8 - Z.of_nat (length e1 + length e2))) as [Hp2|Hp2].
+    + unfold read_bin. destruct (Z.ltb_spec (sl * 8 - Z.of_nat (length e1 + length e2)) 0); [lia|].
+      assert (Et : take_bits (Z.to_nat (sl * 8 - Z.of_nat (length e1 + length e2))) rb = Ok (b, rc)).
+      { rewrite Erb. replace (Z.to_nat (sl * 8 - Z.of_nat (length e1 + length e2))) with (length b) by lia.
+        apply take_bits_app. }
+      rewrite Et. cbn [bind]. eexists. split; [reflexivity|]. cbn [sec_index sec_values sec_nbits].
+      split; [reflexivity|]. split; [reflexivity|reflexivity].
+    + destruct (Z.ltb_spec (sl * 8 - Z.of_nat (length e1 + length e2)) 0); [lia|].
+      assert (length b = 0%nat) by lia. destruct b; [|discriminate]. cbn [app] in Erb. subst rb.
+      cbn [bind]. eexists. split; [reflexivity|]. cbn [sec_index sec_values sec_nbits].
+      split; [reflexivity|]. split; [reflexivity|reflexivity].
+Qed.
+End InfoProofs.
